@@ -257,7 +257,7 @@ func TestVerifAdvRun(t *testing.T) {
 	for k := 0; k < 6; k++ {
 		var evs []advEvent
 		for j := 0; j < 20+10*k; j++ {
-			evs = append(evs, advEvent{At: 5e9 + int64(j), Src: verifh.Pick(r, advSources)})
+			evs = append(evs, advEvent{At: 5e9 + 1, Src: verifh.Pick(r, advSources)}) // all in the same instant, back to back
 		}
 		emit(advScenario{ID: fmt.Sprintf("flood-%d", k), Min: 3 * time.Second, Max: 4 * time.Second, Offset: int64(k) * 1e9,
 			Events: evs, Horizon: 15e9, Burst: true, Tags: []string{"stream:flood"}})
